@@ -22,7 +22,7 @@ use shared::terms::{Term, TriplePattern};
 use std::collections::{BTreeMap, BTreeSet, HashMap, HashSet};
 use std::rc::Rc;
 
-const RULE: &str = "four generators: names (20 hand-written rule templates - copy, swap, join, left/right/non-linear closure, symmetric, multi-conclusion, constants and repeated variables in premise/head, variable predicates, mutual recursion, rules whose own variables are called A/B or v0/v1 - x 12 goal binding shapes incl. repeated goal variable and variable predicate x 14 goal-variable namings incl. v0,v1,.. x seeded fact sets), random (1-3 safe rules, 1-2 premises, 1-2 conclusions, <=12 facts over 2-4 constants, random goal shape, goal variable names drawn from plain names, the rules' own names and v0..v6), depth (chains of length 2-13 under right/left-linear closure, marker propagation, even/odd mutual recursion and ladders of copy/swap rules, so that minimal derivation heights 0..13 occur) and filters (rules with numeric and variable-to-variable filters, also on variables that occur in the conclusion, goals open or bound in the filtered position; reported as a separate class). Every case runs the goal as drawn and with canonically renamed variables (in a third of the random cases the program is also run with facts and rules in shuffled order and the answer sets are compared). Cases whose predicted search size exceeds a fixed number of unification steps are skipped and counted. Non-trivial = the goal matches at least one model fact of derivation height >= 1 (a rule is needed); distinct by hash of (facts, rules, goal with its variable names).";
+const RULE: &str = "four generators: names (23 hand-written rule templates - copy, swap, join, left/right/non-linear closure, symmetric, multi-conclusion (distinct head predicates, and two / three conclusions sharing a predicate under one and two joins), constants and repeated variables in premise/head, variable predicates, mutual recursion, rules whose own variables are called A/B or v0/v1 - x 12 goal binding shapes incl. repeated goal variable and variable predicate x 14 goal-variable namings incl. v0,v1,.. x seeded fact sets), random (1-3 safe rules, 1-2 premises, 1-3 conclusions which in half of the multi-conclusion rules share one predicate, <=12 facts over 2-4 constants, random goal shape, goal variable names drawn from plain names, the rules' own names and v0..v6), depth (chains of length 2-13 under right/left-linear closure, marker propagation, even/odd mutual recursion and ladders of copy/swap rules, so that minimal derivation heights 0..13 occur) and filters (rules with numeric and variable-to-variable filters, also on variables that occur in the conclusion, goals open or bound in the filtered position; reported as a separate class). Every case runs the goal as drawn and with canonically renamed variables (in a third of the random cases the program is also run with facts and rules in shuffled order and the answer sets are compared). Cases whose predicted search size exceeds a fixed number of unification steps are skipped and counted. Non-trivial = the goal matches at least one model fact of derivation height >= 1 (a rule is needed); distinct by hash of (facts, rules, goal with its variable names).";
 
 /// completeness is demanded up to this minimal derivation height = the engine's documented depth bound
 const DEMANDED_HEIGHT: u32 = 10;
@@ -919,6 +919,11 @@ const TEMPLATES: &[Tpl] = &[
     Tpl { name: "rule_variables_named_like_plain_goal", rules: "?A q ?B => ?B p ?A", base: &["q"], fixed: &[], goal_preds: &["p"] },
     Tpl { name: "rule_variables_named_like_generated", rules: "?v1 q ?v0 => ?v0 p ?v1 ; ?v2 p ?v0 , ?v0 q ?v1 => ?v2 r ?v1", base: &["q"], fixed: &[], goal_preds: &["p", "r"] },
     Tpl { name: "three_rules_one_head", rules: "?X q ?Y => ?X p ?Y ; ?X r ?Y => ?X p ?Y ; ?X p ?Y , ?Y q ?Z => ?X p ?Z", base: &["q", "r"], fixed: &[], goal_preds: &["p"] },
+    // conclusions of one rule that share a predicate, so that several of them unify with one
+    // sub-goal (some proving it, some not), feeding the first / both premises of a join
+    Tpl { name: "two_headed_symmetric_under_join", rules: "?X q ?Y => ?X r ?Y , ?Y r ?X ; ?X r ?Y , ?Y r ?Z => ?X p ?Z", base: &["q"], fixed: &[], goal_preds: &["p", "r"] },
+    Tpl { name: "two_headed_reflexive_under_join", rules: "?X q ?Y => ?X r ?X , ?X r ?Y ; ?X r ?Y , ?Y q ?Z => ?X p ?Z ; ?X q ?Y => ?X e ?Y", base: &["q"], fixed: &[], goal_preds: &["p", "r"] },
+    Tpl { name: "three_headed_under_two_joins", rules: "?X q ?Y => ?X r ?Y , ?Y r ?X , ?Y e ?X ; ?X r ?Y , ?Y e ?Z => ?X t ?Z ; ?X t ?Y , ?Y r ?Z => ?X p ?Z", base: &["q"], fixed: &[], goal_preds: &["p", "t"] },
 ];
 
 /// names for the (subject, predicate, object) goal variables
@@ -1098,7 +1103,9 @@ fn gen_random(r: &mut Rng, thorough: bool) -> Case {
                     continue;
                 }
             }
-            let nc = if r.chance(1, 5) { 2 } else { 1 };
+            let nc = if r.chance(1, 5) { 2 } else if r.chance(1, 16) { 3 } else { 1 };
+            // in half of the multi-conclusion rules every conclusion has the same predicate
+            let shared_head_pred = if nc > 1 && r.coin() { Some(r.pick(&preds).clone()) } else { None };
             let mut concl = vec![];
             for _ in 0..nc {
                 let ht = |r: &mut Rng| if r.chance(82, 100) { PT::V(r.pick(&bound).clone()) } else { PT::C(r.pick(&ents).clone()) };
@@ -1106,7 +1113,7 @@ fn gen_random(r: &mut Rng, thorough: bool) -> Case {
                 let o = ht(r);
                 // a variable in predicate position of a head only when it is one bound in predicate position
                 let pvars: Vec<String> = prem.iter().filter_map(|p| if let PT::V(x) = &p.1 { Some(x.clone()) } else { None }).collect();
-                let p = if !pvars.is_empty() && r.chance(1, 2) { PT::V(r.pick(&pvars).clone()) } else { PT::C(r.pick(&preds).clone()) };
+                let p = if let Some(sp) = &shared_head_pred { PT::C(sp.clone()) } else if !pvars.is_empty() && r.chance(1, 2) { PT::V(r.pick(&pvars).clone()) } else { PT::C(r.pick(&preds).clone()) };
                 concl.push((s, p, o));
             }
             rule = Some(RuleS { prem, concl, filters: vec![] });
